@@ -290,8 +290,15 @@ def existing_folder(funcs, prev):
     pl, bad = construct(funcs, log)
     if bad is not None:
         raise AssertionError(f"base pipeline does not construct: {bad}")
-    pl.map(inputs_dict(prev["inputs"]), run_folder=d, internal_shapes=internal_dict(prev.get("internal")),
-           storage=storage_value(prev["storage"]), parallel=False, cleanup=True)
+    _Prep.install()
+    try:
+        pl.map(inputs_dict(prev["inputs"]), run_folder=d, internal_shapes=internal_dict(prev.get("internal")),
+               storage=storage_value(prev["storage"]), parallel=False, cleanup=True)
+    except Exception:  # noqa: BLE001
+        # a valid request whose RUN fails (defects of other properties, e.g. C01 internal axis first): the folder of
+        # the interrupted run is still a legitimate pre-existing folder, provided prepare_run had returned
+        if not _Prep.returned:
+            raise
     pc.update(key=key, dir=d, snap=snapshot(d))
     return d
 
@@ -608,7 +615,9 @@ def effective_funcs(c):
 def map_lit(c):
     prev = "None"
     if c["prev"] is not None:
-        prev = "(Some (%s, %s))" % (_inputs(c["prev"]["inputs"]), _shapes(c["prev"].get("internal")))
+        pf = "None" if not c.get("late") else "(Some %s)" % funcs_lit(c["funcs"])
+        prev = "(Some {| pv_inputs := %s; pv_internal := %s; pv_funcs := %s |})" % (
+            _inputs(c["prev"]["inputs"]), _shapes(c["prev"].get("internal")), pf)
     return ("{| q_funcs := %s; q_inputs := %s; q_internal := %s; q_storage := %s; q_registry := %s; q_parallel := %s; "
             "q_executor := %s; q_cleanup := %s; q_prev := %s |}") % (
         funcs_lit(effective_funcs(c)), _inputs(c["inputs"]), _shapes(c.get("internal")), _storage(c["storage"]),
